@@ -155,10 +155,11 @@ Definition check_lfo_script (tab : list (Z * positive * int)) (tpb : Z) (f lo hi
   let l0 := new_lfo f lo hi in
   close (lfo_value l0) (fst (dec init)) && check_lfo_segs (sin_of_assoc tab) tpb l0 segs.
 
-(* Timeline.lfo(params, name): the timeline holds one LFO named 0; does the call return that LFO (position 0),
-   and how many LFOs does the timeline hold afterwards?  (None = the real code raised) *)
-Definition check_tl_lfo (name : option Z) (props : list (lfo_key * Q)) (exp : option (bool * Z)) : bool :=
-  match tl_lfo name props [(Some 0%Z, new_lfo 1 0 1)], exp with
+(* Timeline.lfo(params, name): the timeline holds the LFO named 0 followed by LFOs created later under the names
+   [others]; does the call return the first LFO (position 0), and how many LFOs does the timeline hold
+   afterwards?  (None = the real code raised) *)
+Definition check_tl_lfo (others : list (option Z)) (name : option Z) (props : list (lfo_key * Q)) (exp : option (bool * Z)) : bool :=
+  match tl_lfo name props ((Some 0%Z, new_lfo 1 0 1) :: map (fun n => (n, new_lfo 1 0 1)) others), exp with
   | None, None => true
   | Some (ls, i), Some (same, n) => Bool.eqb (Nat.eqb i 0) same && (Z.of_nat (List.length ls) =? n)%Z
   | _, _ => false
